@@ -46,8 +46,16 @@ def check_iteration(s, cls, train_name):
         if not ok:
             continue
         S = r[2][0]
-        if not (isinstance(S, tuple) and S[0] == "update" and S[1] == state):
-            raise AnalysisError(f"{con}{tag}: new state is not a functional update of `state`: {show(S, maxlen=200)}")
+        if isinstance(S, tuple) and S and S[0] == "ite":
+            # a run-time selection between two successor states: the selection is pushed into the fields that differ, so that a field
+            # that is only conditionally advanced (the counter, say) shows as such
+            from .util import merge_nodes
+            S = merge_nodes(S[1], S[2], S[3])
+        okS = isinstance(S, tuple) and S and S[0] == "update" and S[1] == state
+        s.ob("C10.2", con + tag, okS, "the new state is the old one with fields replaced (one functional update of `state`)", loc, key="state-update", detail=show(S, maxlen=200),
+             necessary_for="each iteration advances the iteration counter by one")
+        if not okS:
+            continue
         f = fields(S)
         s.eq("C10.2", con + tag, nz, f.get("iteration_count", NONE), s.ref(b, "state.iteration_count + 1", {"state": state}),
              "the iteration counter advances by exactly one", loc, key="count-increment",
